@@ -99,6 +99,9 @@ func init() {
 		"math/bits.TrailingZeros32": symTrailingZeros32,
 		"math/bits.Len32":           symLen32,
 		"math/bits.Len64":           symLen64,
+		"regexp.MustCompile":        stubRegexpMustCompile,
+		"sort.Slice":                stubSortSlice,
+		"sort.SliceStable":          stubSortSlice,
 		"fmt.Errorf":                stubErrorf,
 		"fmt.Sprintf":               stubSprintf,
 		"fmt.Sprint":                stubSprintf,
@@ -156,6 +159,52 @@ func init() {
 }
 
 func stubNop(fr *frame, a []value) value { return nil }
+
+// sort.Slice: insertion sort that drives the real less closure (the real implementation goes
+// through reflectlite.Swapper, which is unsafe). Ties may come out in a different order than
+// pdqsort produces.
+func stubSortSlice(fr *frame, a []value) value {
+	x, ok := a[0].(iface)
+	if !ok {
+		panic(unsupported{"sort.Slice argument"})
+	}
+	s, ok := x.v.([]value)
+	if !ok {
+		panic(unsupported{"sort.Slice on non-slice"})
+	}
+	less := func(i, j int) bool {
+		r := call(fr.i, fr, token.NoPos, a[1], []value{i, j})
+		switch b := r.(type) {
+		case bool:
+			return b
+		case sym:
+			return fr.i.pc.branch(b.t)
+		}
+		panic(unsupported{"sort.Slice less result"})
+	}
+	for i := 1; i < len(s); i++ {
+		for j := i; j > 0 && less(j, j-1); j-- {
+			if fr.i.pc.watching {
+				fr.i.pc.checkStore(fr, &s[j], nil)
+			}
+			s[j], s[j-1] = s[j-1], s[j]
+		}
+	}
+	return nil
+}
+
+// regexp.MustCompile: an opaque *Regexp whose first field holds the expression text
+// (matching is provided by dedicated stubs for the patterns orb uses).
+func stubRegexpMustCompile(fr *frame, a []value) value {
+	rp := fr.i.prog.ImportedPackage("regexp")
+	if rp == nil {
+		panic(unsupported{"regexp package not loaded"})
+	}
+	t := rp.Type("Regexp").Object().Type()
+	var cell value = zero(t)
+	cell.(structure)[0] = a[0]
+	return &cell
+}
 
 func stubOnceDo(fr *frame, a []value) value {
 	// execute f every time the Once is zero: model done flag in the struct's first field
@@ -1142,8 +1191,36 @@ func stubSprintf(fr *frame, a []value) value {
 	return "fmt.Sprint"
 }
 
+// fmt.Fprintf(w, format, args...): formats natively when every operand is concrete, otherwise
+// writes the format string with %-verbs replaced by an opaque token; the text is handed to the
+// real w.Write.
 func stubFprintf(fr *frame, a []value) value {
-	panic(unsupported{"fmt.Fprintf (no model registered)"})
+	format, _ := a[1].(string)
+	text := ""
+	if args, ok := nativeArgs(a[2]); ok {
+		text = fmt.Sprintf(format, args...)
+	} else {
+		text = strings.NewReplacer("%g", "<num>", "%v", "<v>", "%d", "<int>", "%s", "<s>").Replace(format)
+		fr.i.pc.stats.Assumptions["fmt.Fprintf with symbolic operands writes an opaque token per verb"] = true
+	}
+	w := a[0].(iface)
+	if w.t == nil {
+		panic(goPanic{"invalid memory address or nil pointer dereference (nil io.Writer)"})
+	}
+	var meth *types.Func
+	ms := fr.i.prog.MethodSets.MethodSet(w.t)
+	for k := 0; k < ms.Len(); k++ {
+		if ms.At(k).Obj().Name() == "Write" {
+			meth = ms.At(k).Obj().(*types.Func)
+		}
+	}
+	if meth == nil {
+		panic(unsupported{"Fprintf: writer without Write"})
+	}
+	fn := lookupMethod(fr.i, w.t, meth)
+	b := toSymString(text).b
+	res := call(fr.i, fr, token.NoPos, fn, []value{w.v, b})
+	return res
 }
 
 // ---- bytealg ----
